@@ -61,7 +61,16 @@ func c17Journal(r *Run) {
 	h.pageSize = []uint32{512, 1024, 4096}[t.Next(3)]
 	h.jmode = []string{ModeDelete, ModeTruncate, ModePersist}[t.Next(3)]
 	h.maxPages = 40
-	r.Cfg["page_size"], r.Cfg["jmode"] = h.pageSize, h.jmode
+	// The sector size is whatever the VFS reports (SQLite accepts any power of
+	// two from 32 to 65536 and records it in every segment header): segment
+	// headers sit at multiples of it, so small sectors make "records end exactly
+	// on a boundary" reachable with a handful of records.
+	r.SectorSize = []uint32{512, 4096, 32, 64, 128, 1024}[t.Pick([]int{5, 2, 2, 2, 1, 1})]
+	wide := t.Chance(1, 3)
+	if wide {
+		h.maxPages = 160
+	}
+	r.Cfg["page_size"], r.Cfg["jmode"], r.Cfg["sector_size"], r.Cfg["wide"] = h.pageSize, h.jmode, r.SectorSize, wide
 	h.n = newStaticPrimary(r, false, nil)
 	if h.n == nil {
 		return
@@ -70,6 +79,16 @@ func c17Journal(r *Run) {
 		return
 	}
 	c := h.conns[0]
+	if wide {
+		// a database large enough for transactions with many journal records
+		c.Mode = h.jmode
+		res := c.WriteTx(TxProgram{NewSize: uint32(t.Range(24, 150)), Outcome: OutCommit}, h.ref)
+		if res.Outcome != OutCommit {
+			r.Failf("c17.refused", "creating the database was refused at %s: %v", res.FailedAt, res.Errno)
+			return
+		}
+		h.ref = res.After
+	}
 	c.KeepJFD = t.Chance(1, 2)
 	// pre-history: leaves stale journal content behind in PERSIST/TRUNCATE modes
 	for i := 0; i < t.Range(1, 4); i++ {
@@ -144,6 +163,28 @@ func c17Journal(r *Run) {
 	}
 	if len(prog.Modify) == 0 {
 		prog.Modify = []uint32{1, 2}
+	}
+	if wide && !staleFocus {
+		// many records, spills anywhere among them (a segment may end exactly
+		// on a sector boundary)
+		n := t.Range(4, int(min32(h.ref.N(), 140)))
+		start := uint32(t.Range(1, int(h.ref.N())-n+1))
+		prog.Modify = nil
+		for i := 0; i < n; i++ {
+			prog.Modify = append(prog.Modify, start+uint32(i))
+		}
+		prog.SpillAt = nil
+		at := 0
+		for k := t.Range(1, 3); k > 0; k-- {
+			at += t.Range(1, n/2)
+			if at >= n {
+				break
+			}
+			prog.SpillAt = append(prog.SpillAt, at)
+		}
+		if prog.NewSize < start+uint32(n)-1 {
+			prog.NewSize = h.ref.N()
+		}
 	}
 	if staleFocus {
 		// one record (page 1 only) or two: the old second header at the next
